@@ -654,4 +654,520 @@ theorem renderAList_toDocAList (T : PrecTable) :
         simp [toDocAList, Doc.flattenList, ih1, ih2, ← h]
 end
 
+theorem joinSep_append (sep : List Char) (a b : List (List Char)) :
+    joinSep sep (a ++ b) =
+      if b.isEmpty then joinSep sep a else if a.isEmpty then joinSep sep b
+      else joinSep sep a ++ sep ++ joinSep sep b := by
+  induction a with
+  | nil => cases b <;> simp [joinSep]
+  | cons x xs ih =>
+    cases xs with
+    | nil => cases b <;> simp [joinSep]
+    | cons y ys =>
+      cases b with
+      | nil => simp
+      | cons z zs =>
+        simp only [List.cons_append, joinSep_cons_cons] at ih ⊢
+        simp [ih]
+
+/-- which of the context-sensitive shapes a `Doc` / an `Expr` is: 0 absent, 1 starred, 2 keyword,
+3 bare index list, 4 anything else -/
+def Doc.tag : Doc → Nat
+  | .absent => 0 | .starred _ => 1 | .keyword _ _ => 2 | .bare _ => 3 | _ => 4
+def Expr.tag : Expr → Nat
+  | .absent => 0 | .starred _ => 1 | .keyword _ _ => 2 | _ => 4
+
+theorem tag_wrapIf (b : Bool) (d : Doc) (h : d.tag = 4) : (wrapIf b d).tag = 4 := by
+  cases b
+  · simpa [wrapIf] using h
+  · simp [wrapIf, Doc.tag]
+
+theorem tag_toDocA (T : PrecTable) (pp : Nat) (a : AExpr) : (toDocA T pp a).tag = 4 := by
+  cases a with
+  | name s => simp [toDocA, Doc.tag]
+  | unary op x => rw [toDocA]; exact tag_wrapIf _ _ (by simp [Doc.tag])
+  | binary op l r => rw [toDocA]; exact tag_wrapIf _ _ (by simp [Doc.tag])
+  | boolop op xs => rw [toDocA]; exact tag_wrapIf _ _ (by simp [Doc.tag])
+  | compare l ops rs =>
+    cases ops with
+    | nil => simp [toDocA, Doc.tag]
+    | cons o os => rw [toDocA]; exact tag_wrapIf _ _ (by simp [Doc.tag])
+  | ifExp b t o => rw [toDocA]; exact tag_wrapIf _ _ (by simp [Doc.tag])
+
+theorem tag_toDoc (T : PrecTable) (pp : Option Nat) (e : Expr) : (toDoc T pp e).tag = e.tag := by
+  cases e with
+  | unary op x => rw [toDoc]; exact tag_wrapIf _ _ (by simp [Doc.tag])
+  | binary op l r => rw [toDoc]; exact tag_wrapIf _ _ (by simp [Doc.tag])
+  | boolop op xs => rw [toDoc]; exact tag_wrapIf _ _ (by simp [Doc.tag])
+  | constInt n => simp only [toDoc]; split <;> simp [Doc.tag, Expr.tag]
+  | subscript v s => cases s <;> simp [toDoc, Doc.tag, Expr.tag]
+  | astor a =>
+    simp only [toDoc]
+    split
+    · simp [tag_toDocA, Expr.tag]
+    · simp [Doc.tag, Expr.tag]
+  | keyword a v => cases a <;> simp [toDoc, Doc.tag, Expr.tag]
+  | _ => simp [toDoc, Doc.tag, Expr.tag]
+
+theorem toDoc_absent_iff (T : PrecTable) (pp : Option Nat) (e : Expr) :
+    toDoc T pp e = .absent ↔ e = .absent := by
+  constructor
+  · intro h
+    have := tag_toDoc T pp e
+    rw [h] at this
+    cases e <;> simp [Doc.tag, Expr.tag] at this ⊢
+  · intro h; subst h; simp [toDoc]
+
+theorem dict_flat (T : PrecTable) : ∀ (ks vs : List Expr),
+    Doc.flattenList (toDocList T (some T.highest) ks) = (compileList T (some T.highest) ks).map flat →
+    Doc.flattenList (toDocList T (some T.comma) vs) = (compileList T (some T.comma) vs).map flat →
+    Doc.flattenList (toDocList T (some T.highest) vs) = (compileList T (some T.highest) vs).map flat →
+    dictTexts (toDocList T (some T.highest) ks) (Doc.flattenList (toDocList T (some T.highest) ks))
+        (Doc.flattenList (pickDocs ks (toDocList T (some T.comma) vs) (toDocList T (some T.highest) vs)))
+      = (dictItems ks (compileList T (some T.highest) ks) (compileList T (some T.comma) vs)
+          (compileList T (some T.highest) vs)).map flat
+  | [], vs, _, _, _ => by simp [toDocList, Doc.flattenList, dictTexts, compileList, dictItems]
+  | k :: ks, [], _, _, _ => by
+    simp [toDocList, Doc.flattenList, dictTexts, compileList, dictItems, pickDocs]
+  | k :: ks, v :: vs, hk, hc, hh => by
+    simp only [toDocList, compileList, Doc.flattenList, List.map_cons, List.cons.injEq] at hk hc hh
+    have ih := dict_flat T ks vs hk.2 hc.2 hh.2
+    by_cases hka : k = .absent
+    · subst hka
+      simp only [toDocList, compileList, pickDocs, Doc.flattenList, dictTexts, dictItems, toDoc,
+        List.map_cons, ih, List.cons.injEq, and_true]
+      simp [flat, flatList, hh.1]
+    · have hkd : toDoc T (some T.highest) k ≠ .absent := fun h => hka ((toDoc_absent_iff T _ k).1 h)
+      have e1 : ∀ (a b : Doc), (match k with | .absent => a | _ => b) = b := by
+        intro a b; cases k <;> simp at hka ⊢
+      have e2 : ∀ (a b : Prog), (match k with | .absent => a | _ => b) = b := by
+        intro a b; cases k <;> simp at hka ⊢
+      have e3 : ∀ (a b : List Char),
+          (match toDoc T (some T.highest) k with | .absent => a | _ => b) = b := by
+        intro a b
+        cases h : toDoc T (some T.highest) k <;> simp_all
+      simp only [toDocList, compileList, pickDocs, Doc.flattenList, dictTexts, dictItems,
+        List.map_cons, ih, List.cons.injEq, and_true, e1, e2, e3]
+      simp [flat, flatList, hk.1, hc.1]
+
+theorem flattenList_append (a b : List Doc) :
+    Doc.flattenList (a ++ b) = Doc.flattenList a ++ Doc.flattenList b := by
+  induction a with
+  | nil => simp [Doc.flattenList]
+  | cons d ds ih => simp [Doc.flattenList, ih]
+
+theorem call_flat (sep : List Char) (args kws : List Expr) (A K : List (List Char))
+    (hA : A.isEmpty = args.isEmpty) (hK : K.isEmpty = kws.isEmpty) :
+    joinSep sep (A ++ K) =
+      joinSep sep A ++ (if kws.isEmpty then [] else (if args.isEmpty then [] else sep) ++ joinSep sep K) := by
+  rw [joinSep_append, hA, hK]
+  cases args <;> cases kws <;> cases A <;> cases K <;> simp_all [joinSep]
+
+mutual
+/-- **the `Doc` of an expression spells exactly what the colourizer writes** -/
+theorem toDoc_flatten (T : PrecTable) :
+    ∀ (e : Expr) (pp : Option Nat), (toDoc T pp e).flatten = flat (compile T pp e)
+  | .name s, pp => by simp [toDoc, compile, Doc.flatten, flat]
+  | .dotted ps, pp => by simp [toDoc, compile, Doc.flatten, flat]
+  | .constInt n, pp => by
+    simp only [toDoc, compile]
+    split <;> simp [Doc.flatten, flat]
+  | .constNum t, pp => by simp [toDoc, compile, Doc.flatten, flat]
+  | .constStr s, pp => by simp [toDoc, compile, Doc.flatten, flat, flatList, strProg]
+  | .constBytes b, pp => by simp [toDoc, compile, Doc.flatten, flat, flatList, bytesProg]
+  | .constName k, pp => by simp [toDoc, compile, Doc.flatten, flat]
+  | .ellipsis, pp => by simp [toDoc, compile, Doc.flatten, flat]
+  | .absent, pp => by simp [toDoc, compile, Doc.flatten, flat]
+  | .opaque t, pp => by simp [toDoc, compile, Doc.flatten, flat]
+  | .unknown, pp => by simp [toDoc, compile, Doc.flatten, flat]
+  | .unary op x, pp => by
+    have ih := toDoc_flatten T x (some (T.unary op))
+    simp [toDoc, compile, flatten_wrapIf, flat_parenIf, Doc.flatten, flat, flatList, ih]
+  | .binary op l r, pp => by
+    have ihl := toDoc_flatten T l (some (T.bin op + (if op = .pow then 1 else 0)))
+    have ihr := toDoc_flatten T r (some (T.bin op + (if op = .pow then 1 else 0)))
+    simp [toDoc, compile, flatten_wrapIf, flat_parenIf, Doc.flatten, flat, flatList, ihl, ihr]
+  | .boolop op xs, pp => by
+    have ih := toDocList_flatten T xs (some (T.bool op + 1))
+    simp [toDoc, compile, flatten_wrapIf, flat_parenIf, Doc.flatten, flat, flatList_boolBody, ih]
+  | .list xs, pp => by
+    have ih := toDocList_flatten T xs (some T.highest)
+    simp [toDoc, compile, Doc.flatten, flat, flat_iterProg, ih]
+  | .tuple xs, pp => by
+    have ih := toDocList_flatten T xs (some T.highest)
+    simp [toDoc, compile, Doc.flatten, flat, flat_iterProg, ih]
+  | .set xs, pp => by
+    have ih := toDocList_flatten T xs (some T.highest)
+    simp [toDoc, compile, Doc.flatten, flat, flat_iterProg, ih]
+  | .dict ks vs, pp => by
+    have h := dict_flat T ks vs (toDocList_flatten T ks _) (toDocList_flatten T vs _)
+      (toDocList_flatten T vs _)
+    simp [toDoc, compile, Doc.flatten, flat, flat_iterProg, h]
+  | .subscript v (.tuple elts), pp => by
+    have ihv := toDoc_flatten T v (some T.highest)
+    have ih := toDocList_flatten T elts (some T.highest)
+    simp [toDoc, compile, Doc.flatten, flat, flatList, flat_iterProg, ihv, ih]
+  | .subscript v s, pp => by
+    have ihv := toDoc_flatten T v (some T.highest)
+    have ihs := toDoc_flatten T s (some T.highest)
+    cases s <;> simp_all [toDoc, compile, Doc.flatten, flat, flatList, flat_iterProg]
+  | .call f args kws, pp => by
+    have ihf := toDoc_flatten T f (some T.highest)
+    have iha := toDocList_flatten T args (some T.highest)
+    have ihk := toDocList_flatten T kws (some T.highest)
+    have hA : (Doc.flattenList (toDocList T (some T.highest) args)).isEmpty = args.isEmpty := by
+      cases args <;> simp [toDocList, Doc.flattenList]
+    have hK : (Doc.flattenList (toDocList T (some T.highest) kws)).isEmpty = kws.isEmpty := by
+      cases kws <;> simp [toDocList, Doc.flattenList]
+    simp only [toDoc, compile, Doc.flatten, flattenList_append, call_flat _ args kws _ _ hA hK]
+    cases h1 : kws.isEmpty <;> cases h2 : args.isEmpty <;>
+      simp [flat, flatList, flatList_append, flat_iterProg, ihf, iha, ihk]
+  | .keyword (some a) v, pp => by
+    have ih := toDoc_flatten T v (some T.highest)
+    simp [toDoc, compile, Doc.flatten, flat, flatList, ih]
+  | .keyword none v, pp => by
+    have ih := toDoc_flatten T v (some T.highest)
+    simp [toDoc, compile, Doc.flatten, flat, flatList, ih]
+  | .starred x, pp => by
+    have ih := toDoc_flatten T x (some T.highest)
+    simp [toDoc, compile, Doc.flatten, flat, flatList, ih]
+  | .astor a, pp => by
+    simp only [toDoc, compile]
+    cases h : renderA T T.highest a with
+    | none => simp [Doc.flatten, flat]
+    | some t => simp [flat, renderA_toDocA T a _ _ h]
+theorem toDocList_flatten (T : PrecTable) :
+    ∀ (xs : List Expr) (pp : Option Nat),
+      Doc.flattenList (toDocList T pp xs) = (compileList T pp xs).map flat
+  | [], pp => by simp [toDocList, compileList, Doc.flattenList]
+  | x :: xs, pp => by
+    simp [toDocList, compileList, Doc.flattenList, toDoc_flatten T x pp, toDocList_flatten T xs pp]
+end
+
+/-- the displayed text of an expression is the spelling of its `Doc` -/
+theorem render_eq_flatten (T : PrecTable) (e : Expr) : render T e = (toDoc T none e).flatten := by
+  rw [render, toDoc_flatten]
+
+/-! ### reading the `Doc` back: the delegated (astor) fragment
+
+astor hands every operand the precedence the grammar position requires (`p` to the left, `p + 1`
+to the right, `Pow + 1` / `PowRHS` around `**`, `p + 1` to the operands of `and`/`or`/comparisons,
+…): `Rel pp n` says that a parent precedence `pp` is at least as demanding as grammar level `n`. -/
+
+/-- (astor precedence, grammar level) of every operator form -/
+def kinds (T : PrecTable) : List (Nat × Nat) :=
+  UOp.all.map (fun o => (T.unary o, o.level)) ++ BOp.all.map (fun o => (T.bin o, o.level)) ++
+  LOp.all.map (fun o => (T.bool o, o.level)) ++ COp.all.map (fun o => (T.cmp o, 5)) ++ [(T.ifExp, 1)]
+
+def Rel (T : PrecTable) (pp n : Nat) : Bool :=
+  (kinds T).all fun k => !decide (k.1 ≥ pp) || decide (n ≤ k.2)
+
+theorem rel_use {T : PrecTable} {pp n : Nat} (h : Rel T pp n = true) {p l : Nat}
+    (hm : (p, l) ∈ kinds T) (hp : p ≥ pp) : n ≤ l := by
+  unfold Rel at h
+  rw [List.all_eq_true] at h
+  have := h (p, l) hm
+  simpa [hp] using this
+
+theorem mem_kinds_unary (T : PrecTable) (o : UOp) : (T.unary o, o.level) ∈ kinds T := by
+  cases o <;> simp [kinds, UOp.all]
+theorem mem_kinds_bin (T : PrecTable) (o : BOp) : (T.bin o, o.level) ∈ kinds T := by
+  cases o <;> simp [kinds, BOp.all]
+theorem mem_kinds_bool (T : PrecTable) (o : LOp) : (T.bool o, o.level) ∈ kinds T := by
+  cases o <;> simp [kinds, LOp.all]
+theorem mem_kinds_cmp (T : PrecTable) (o : COp) : (T.cmp o, 5) ∈ kinds T := by
+  cases o <;> simp [kinds, COp.all]
+theorem mem_kinds_ifExp (T : PrecTable) : (T.ifExp, 1) ∈ kinds T := by
+  simp [kinds]
+
+theorem parse_wrapIf (b : Bool) (d t : Doc) (n lvl : Nat) (h1 : 1 ≤ lvl)
+    (hfit : b = false → n ≤ lvl) (hd : ∀ m, m ≤ lvl → parseDoc m d = some t) :
+    parseDoc n (wrapIf b d) = some t := by
+  cases b
+  · simpa [wrapIf] using hd n (hfit rfl)
+  · simpa [wrapIf, parseDoc] using hd 1 h1
+
+theorem sequence_map_some {α} (l : List α) : sequence (l.map some) = some l := by
+  induction l with
+  | nil => rfl
+  | cons x xs ih => simp [sequence, ih]
+
+mutual
+/-- well-formedness that CPython's parser guarantees: `and`/`or` have two operands or more, a
+comparison has as many operators as right operands and at least one -/
+def okA : AExpr → Bool
+  | .name _ => true
+  | .unary _ x => okA x
+  | .binary _ l r => okA l && okA r
+  | .boolop _ xs => decide (2 ≤ xs.length) && okAList xs
+  | .compare l ops rs => decide (1 ≤ ops.length) && decide (ops.length = rs.length) && okA l && okAList rs
+  | .ifExp b t o => okA b && okA t && okA o
+def okAList : List AExpr → Bool
+  | [] => true
+  | x :: xs => okA x && okAList xs
+end
+
+theorem length_toDocAList (T : PrecTable) (pp : Nat) (xs : List AExpr) :
+    (toDocAList T pp xs).length = xs.length := by
+  induction xs with
+  | nil => simp [toDocAList]
+  | cons x xs ih => simp [toDocAList, ih]
+
+-- the operand precedences astor hands down meet the grammar positions, for the live table
+theorem rel_unary : ∀ o : UOp, Rel LT (LT.unary o) o.level = true := by
+  intro o; cases o <;> decide +kernel
+theorem rel_binL : ∀ o : BOp, Rel LT (if o = .pow then LT.bin .pow + 1 else LT.bin o) o.leftMin = true := by
+  intro o; cases o <;> decide +kernel
+theorem rel_binR : ∀ o : BOp, Rel LT (if o = .pow then LT.powRHS else LT.bin o + 1) o.rightMin = true := by
+  intro o; cases o <;> decide +kernel
+theorem rel_bool : ∀ o : LOp, Rel LT (LT.bool o + 1) (o.level + 1) = true := by
+  intro o; cases o <;> decide +kernel
+theorem rel_cmp : ∀ o : COp, Rel LT (LT.cmp o + 1) 6 = true := by
+  intro o; cases o <;> decide +kernel
+theorem rel_ifExp : Rel LT (LT.ifExp + 1) 2 = true ∧ Rel LT LT.ifExp 1 = true := by decide +kernel
+theorem rel_highest (n : Nat) : Rel LT LT.highest n = true := by
+  unfold Rel
+  rw [List.all_eq_true]
+  intro k hk
+  have hall : ∀ k ∈ kinds LT, k.1 < LT.highest := by decide +kernel
+  have := hall k hk
+  have h2 : ¬ k.1 ≥ LT.highest := by omega
+  simp [h2]
+
+mutual
+/-- the delegated fragment reads back as the source tree: astor's parentheses are sufficient -/
+theorem parseA_ok :
+    ∀ (a : AExpr) (pp n : Nat), okA a = true → Rel LT pp n = true →
+      parseDoc n (toDocA LT pp a) = some (canonA a)
+  | .name s, pp, n, _, _ => by simp [toDocA, canonA, parseDoc]
+  | .unary op x, pp, n, hok, hrel => by
+    simp only [okA] at hok
+    rw [toDocA, canonA]
+    refine parse_wrapIf _ _ _ n op.level (by cases op <;> decide) ?_ ?_
+    · intro hb
+      exact rel_use hrel (mem_kinds_unary LT op) (by simpa using hb)
+    · intro m hm
+      have ih := parseA_ok x (LT.unary op) op.level hok (rel_unary op)
+      simp [parseDoc, hm, ih]
+  | .binary op l r, pp, n, hok, hrel => by
+    simp only [okA, Bool.and_eq_true] at hok
+    rw [toDocA, canonA]
+    refine parse_wrapIf _ _ _ n op.level (by cases op <;> decide) ?_ ?_
+    · intro hb
+      exact rel_use hrel (mem_kinds_bin LT op) (by simpa using hb)
+    · intro m hm
+      have ihl := parseA_ok l _ op.leftMin hok.1 (rel_binL op)
+      have ihr := parseA_ok r _ op.rightMin hok.2 (rel_binR op)
+      simp [parseDoc, hm, ihl, ihr]
+  | .boolop op xs, pp, n, hok, hrel => by
+    simp only [okA, Bool.and_eq_true, decide_eq_true_eq] at hok
+    rw [toDocA, canonA]
+    refine parse_wrapIf _ _ _ n op.level (by cases op <;> decide) ?_ ?_
+    · intro hb
+      exact rel_use hrel (mem_kinds_bool LT op) (by simpa using hb)
+    · intro m hm
+      have ih := parseAList_ok xs _ (op.level + 1) hok.2 (rel_bool op)
+      simp [parseDoc, hm, ih, length_toDocAList, hok.1, sequence_map_some]
+  | .compare l ops rs, pp, n, hok, hrel => by
+    simp only [okA, Bool.and_eq_true, decide_eq_true_eq] at hok
+    obtain ⟨⟨⟨h1, h2⟩, hl⟩, hrs⟩ := hok
+    cases ops with
+    | nil => simp at h1
+    | cons op0 ops' =>
+      rw [toDocA, canonA]
+      refine parse_wrapIf _ _ _ n 5 (by decide) ?_ ?_
+      · intro hb
+        exact rel_use hrel (mem_kinds_cmp LT op0) (by simpa using hb)
+      · intro m hm
+        have ihl := parseA_ok l _ 6 hl (rel_cmp op0)
+        have ihr := parseAList_ok rs _ 6 hrs (rel_cmp op0)
+        simp [parseDoc, hm, ihl, ihr, length_toDocAList, sequence_map_some, ← h2]
+  | .ifExp b t o, pp, n, hok, hrel => by
+    simp only [okA, Bool.and_eq_true] at hok
+    rw [toDocA, canonA]
+    refine parse_wrapIf _ _ _ n 1 (by decide) ?_ ?_
+    · intro hb
+      exact rel_use hrel (mem_kinds_ifExp LT) (by simpa using hb)
+    · intro m hm
+      have ihb := parseA_ok b _ 2 hok.1.1 rel_ifExp.1
+      have iht := parseA_ok t _ 2 hok.1.2 rel_ifExp.1
+      have iho := parseA_ok o _ 1 hok.2 rel_ifExp.2
+      simp [parseDoc, hm, ihb, iht, iho]
+theorem parseAList_ok :
+    ∀ (xs : List AExpr) (pp n : Nat), okAList xs = true → Rel LT pp n = true →
+      parseEach n (toDocAList LT pp xs) = (canonAList xs).map some
+  | [], pp, n, _, _ => by simp [toDocAList, canonAList, parseEach]
+  | x :: xs, pp, n, hok, hrel => by
+    simp only [okAList, Bool.and_eq_true] at hok
+    simp [toDocAList, canonAList, parseEach, parseA_ok x pp n hok.1 hrel,
+      parseAList_ok xs pp n hok.2 hrel]
+end
+
+/-! ### reading the `Doc` back: the natively coloured forms -/
+
+/-- the table entry of an expression standing in an operand slot -/
+def kidOf : Expr → Option Kid
+  | .unary op _ => some (.unary op)
+  | .binary op _ _ => some (.bin op)
+  | .boolop op _ => some (.bool op)
+  | _ => none
+
+/-- an expression rendered under parent precedence `pp` can be read at grammar level `n`: either it
+gets parentheses or its own level is high enough -/
+def fits (T : PrecTable) (pp : Option Nat) (n : Nat) (e : Expr) : Bool :=
+  match kidOf e with
+  | none => true
+  | some k => needParen pp (k.prec T) || decide (n ≤ Grammar.kidLevel k)
+
+theorem fits_slot (s : Slot) (e : Expr)
+    (h : ∀ k, kidOf e = some k → rightEqual LT s k = false) :
+    fits LT (some (s.pp LT)) (Grammar.slotMin s) e = true := by
+  unfold fits
+  cases hk : kidOf e with
+  | none => rfl
+  | some k =>
+    have ht := paren_table_exact s (Slot.mem_all s) k (Kid.mem_all k)
+    rw [h k hk] at ht
+    simp only [decision, Grammar.needsParens] at ht
+    by_cases hl : Grammar.slotMin s ≤ Grammar.kidLevel k
+    · simp [hl]
+    · have : Grammar.kidLevel k < Grammar.slotMin s := by omega
+      simp [this] at ht
+      simp [ht]
+
+theorem fits_highest (n : Nat) (e : Expr) : fits LT (some LT.highest) n e = true := by
+  unfold fits
+  cases hk : kidOf e with
+  | none => rfl
+  | some k => simp [(paren_table_oversound k (Kid.mem_all k)).1]
+
+theorem one_le_kidLevel (k : Kid) : 1 ≤ Grammar.kidLevel k := by
+  cases k with
+  | unary o => cases o <;> decide
+  | bin o => cases o <;> decide
+  | bool o => cases o <;> decide
+
+theorem fits_one (pp : Option Nat) (e : Expr) : fits LT pp 1 e = true := by
+  unfold fits
+  cases hk : kidOf e with
+  | none => rfl
+  | some k => simp [one_le_kidLevel k]
+
+/-- the right operand is a binary operator of the same precedence as its non-`**` parent -/
+def rightEq (T : PrecTable) (op : BOp) : Expr → Bool
+  | .binary op' _ _ => op ≠ .pow && T.bin op == T.bin op'
+  | _ => false
+
+theorem rightEq_spec (op : BOp) (r : Expr) (h : rightEq LT op r = false) :
+    ∀ k, kidOf r = some k → rightEqual LT (.binR op) k = false := by
+  intro k hk
+  cases r <;> simp [kidOf] at hk
+  all_goals subst hk
+  all_goals simp_all [rightEqual, rightEq]
+
+theorem binL_not_rightEqual (op : BOp) (k : Kid) : rightEqual LT (.binL op) k = false := by
+  simp [rightEqual]
+theorem unary_not_rightEqual (op : UOp) (k : Kid) : rightEqual LT (.unary op) k = false := by
+  simp [rightEqual]
+theorem bool_not_rightEqual (op : LOp) (k : Kid) : rightEqual LT (.boolArg op) k = false := by
+  simp [rightEqual]
+
+mutual
+/-- The trees for which the read-back theorem is proved.  Besides the shape CPython's parser
+guarantees (operand counts, equal list lengths, `*x` only as an element or argument, keywords only
+in calls), it EXCLUDES the inputs on which the current colourizer is wrong:
+  * a non-`**` binary operator whose right operand is a binary operator of equal precedence,
+  * a one-element tuple (also as subscript index),
+  * an empty tuple as subscript index,
+  * an `int` too long for `str()`, and a delegated node on which astor raised. -/
+def okTree (T : PrecTable) (star : Bool) : Expr → Bool
+  | .name _ => true
+  | .dotted _ => true
+  | .constNum _ => true
+  | .constStr _ => true
+  | .constBytes _ => true
+  | .constName _ => true
+  | .ellipsis => true
+  | .opaque _ => true
+  | .constInt n => decide ((Nat.toDigits 10 n).length ≤ maxStrDigits)
+  | .unary _ x => okTree T false x
+  | .binary op l r => okTree T false l && okTree T false r && !rightEq T op r
+  | .boolop _ xs => decide (2 ≤ xs.length) && okList T false xs
+  | .tuple xs => decide (xs.length ≠ 1) && okList T true xs
+  | .list xs => okList T true xs
+  | .set xs => okList T true xs
+  | .dict ks vs => decide (ks.length = vs.length) && okKeys T ks && okList T false vs
+  | .call f args kws => okTree T false f && okList T true args && okKws T kws
+  | .keyword _ _ => false
+  | .subscript v (.tuple elts) => okTree T false v && decide (2 ≤ elts.length) && okList T true elts
+  | .subscript v s => okTree T false v && okTree T false s
+  | .starred x => star && okTree T false x
+  | .astor a => okA a
+  | .unknown => false
+  | .absent => false
+def okList (T : PrecTable) (star : Bool) : List Expr → Bool
+  | [] => true
+  | x :: xs => okTree T star x && okList T star xs
+def okKeys (T : PrecTable) : List Expr → Bool
+  | [] => true
+  | .absent :: ks => okKeys T ks
+  | k :: ks => okTree T false k && okKeys T ks
+def okKws (T : PrecTable) : List Expr → Bool
+  | [] => true
+  | .keyword _ v :: ks => okTree T false v && okKws T ks
+  | _ :: _ => false
+end
+
+theorem length_toDocList (T : PrecTable) (pp : Option Nat) (xs : List Expr) :
+    (toDocList T pp xs).length = xs.length := by
+  induction xs with
+  | nil => simp [toDocList]
+  | cons x xs ih => simp [toDocList, ih]
+
+theorem tag_of_ok (T : PrecTable) (star : Bool) (e : Expr) (h : okTree T star e = true) :
+    e.tag ≠ 0 ∧ e.tag ≠ 2 ∧ (star = false → e.tag ≠ 1) := by
+  cases e <;> simp_all [okTree, Expr.tag]
+
+theorem isKeyword_eq (d : Doc) : d.isKeyword = decide (d.tag = 2) := by
+  cases d <;> simp [Doc.isKeyword, Doc.tag]
+
+theorem parseArgEach_cons_plain (d : Doc) (ds : List Doc) (h1 : d.tag ≠ 1) (h2 : d.tag ≠ 2) :
+    parseArgEach (d :: ds) = parseDoc 1 d :: parseArgEach ds := by
+  cases d <;> simp [Doc.tag] at h1 h2 <;> simp [parseArgEach]
+
+theorem parseKeyEach_cons_present (d : Doc) (ds : List Doc) (h : d.tag ≠ 0) :
+    parseKeyEach (d :: ds) = parseDoc 1 d :: parseKeyEach ds := by
+  cases d <;> simp [Doc.tag] at h <;> simp [parseKeyEach]
+
+theorem parse_subscript_plain (n : Nat) (v idx : Doc) (h : idx.tag = 4) :
+    parseDoc n (.subscript v idx) =
+      match parseDoc 15 v, parseDoc 1 idx with
+      | some v', some i' => some (.subscript v' i')
+      | _, _ => none := by
+  cases idx <;> simp [Doc.tag] at h <;> (rw [parseDoc.eq_24] <;> (intros; first | rfl | simp_all))
+
+theorem parse_subscript_bare (n : Nat) (v d1 d2 : Doc) (ds : List Doc) :
+    parseDoc n (.subscript v (.bare (d1 :: d2 :: ds))) =
+      if (d1 :: d2 :: ds).all (!·.isKeyword) then
+        match parseDoc 15 v, sequence (parseArgEach (d1 :: d2 :: ds)) with
+        | some v', some ds' => some (.subscript v' (.tuple ds' false))
+        | _, _ => none
+      else none := by
+  rw [parseDoc.eq_22] <;> (intros; first | rfl | simp_all)
+
+theorem parse_tuple_many (n : Nat) (d1 d2 : Doc) (ds : List Doc) :
+    parseDoc n (.tuple (d1 :: d2 :: ds) false) =
+      (sequence (parseEach 0 (d1 :: d2 :: ds))).map (Doc.tuple · false) := by
+  simp [parseDoc]
+
+theorem toDoc_subscript_plain (T : PrecTable) (pp : Option Nat) (v s : Expr)
+    (h : ∀ elts, s ≠ .tuple elts) :
+    toDoc T pp (.subscript v s) = .subscript (toDoc T (some T.highest) v) (toDoc T (some T.highest) s) := by
+  cases s <;> simp_all [toDoc]
+
+theorem okTree_subscript_plain (T : PrecTable) (star : Bool) (v s : Expr)
+    (h : ∀ elts, s ≠ .tuple elts) :
+    okTree T star (.subscript v s) = (okTree T false v && okTree T false s) := by
+  cases s <;> simp_all [okTree]
+
 end Pyval
